@@ -486,4 +486,50 @@ func c13PEM(kind int, serial int64) []byte {
 	return pem.EncodeToMemory(&pem.Block{Type: "CERTIFICATE", Bytes: der})
 }
 
-func init() { vsymHarnesses["VsymC13"] = VsymC13 }
+// VsymC13Sequence: one trust store object asked several times: every answer depends only on the store asked
+// for - the same name under another type, or the same store after its content changed, is read afresh.
+func VsymC13Sequence() {
+	if !vr.Symbolic() {
+		vr.SkipNative()
+	}
+	types := []string{"ca", "signingAuthority", "tsa"}
+	ts := NewX509TrustStore(dir.NewSysFS("/cfg"))
+	mk := func(tag byte) *c13World {
+		w := &c13World{kindOf: map[*x509.Certificate]int{}, storeKind: c13Dir}
+		c := &x509.Certificate{Raw: []byte{'S', tag}, IsCA: true}
+		w.kindOf[c] = c13RootCA
+		w.entries = []c13Entry{{name: "a.crt", kind: c13Regular, certs: []int{c13RootCA}, objs: []*x509.Certificate{c}}}
+		return w
+	}
+	n := vr.Param("calls", 3)
+	var prevType []int
+	for call := 0; call < n; call++ {
+		t := vr.Choice("storeType", 3)
+		name := []string{"acme", "other"}[vr.Choice("storeName", 2)]
+		w := mk(byte('0' + call))
+		// the store may have disappeared since the last call
+		gone := vr.Choice("storeGone", 2) == 1
+		if gone {
+			w.storeKind = c13Absent
+		}
+		w.expected = "/cfg/truststore/x509/" + types[t] + "/" + name
+		c13W = w
+		certs, err := ts.GetCertificates(context.Background(), Type(types[t]), name)
+		if gone {
+			vr.Assert(err != nil && certs == nil, "a store that no longer exists fails to load, whatever was loaded before")
+		} else {
+			vr.Assert(err == nil && len(certs) == 1 && certs[0] == w.entries[0].objs[0], "every load returns exactly the current certificates of the store asked for (type and name)")
+		}
+		for _, p := range prevType {
+			if p != t {
+				vr.Reach("same object asked for another type")
+			}
+		}
+		prevType = append(prevType, t)
+	}
+}
+
+func init() {
+	vsymHarnesses["VsymC13"] = VsymC13
+	vsymHarnesses["VsymC13Sequence"] = VsymC13Sequence
+}
